@@ -414,11 +414,26 @@ func Generate(seed uint64, n int, tier string, corpusDir string, out *kit.Out) e
 		if i%every == every-1 {
 			sc = genLongScenario(cr, []string{"cached", "mem", "bbolt", "cached-bbolt", "cached"}[(i/every)%5])
 		}
+		// key builders are kept per view and re-filled over their old values: a third of the
+		// operations of every scenario, all of them in every eighth scenario
+		markReuse(cr, sc, i%8 == 3)
 		if err := emit(sc, out); err != nil {
 			return err
 		}
 	}
 	return nil
+}
+
+func markReuse(r *kit.Rng, sc *scenario, all bool) {
+	for _, o := range sc.Ops {
+		if len(o.Items) > 300 {
+			continue
+		}
+		o.Reuse = o.Key != nil && (all || r.Chance(1, 3))
+		for i := range o.Items {
+			o.Items[i].Reuse = all || r.Chance(1, 3)
+		}
+	}
 }
 
 func Replay(path string, out *kit.Out) error {
@@ -468,11 +483,17 @@ func shapeKey(sc *scenario) string {
 	}
 	for _, o := range sc.Ops {
 		fmt.Fprintf(&sb, "|%s%d@%x", o.Op, o.View, o.WS)
+		if o.Reuse {
+			sb.WriteByte('~')
+		}
 		if o.Key != nil {
 			sb.WriteString(ks(*o.Key))
 		}
 		for _, it := range o.Items {
 			fmt.Fprintf(&sb, "+%d%s", it.View, ks(it.Key))
+			if it.Reuse {
+				sb.WriteByte('~')
+			}
 		}
 	}
 	return sb.String()
